@@ -505,7 +505,7 @@ class ConvergenceParams:
         for attr in self._num_attrs:
             if getattr(self, attr) is None:
                 continue
-            if not getattr(self, attr) > 0:
+            if getattr(self, attr) < 0:
                 raise ValueError(
                     f"Value of {attr} should be positive"
                     f" but set to {getattr(self, attr)}!"
